@@ -93,7 +93,9 @@ def run(chk, repo):
         if p.end_kind() not in ('back', 'continue'):
             continue
         nodes = p.nodes()
-        stored = any(n.kind == 'stmt' and norm_stmt(n.ast) == 'circ_records[gene_id].append(circ_record)' for n in nodes)
+        stored = any(n.kind == 'stmt' and isinstance(n.ast, ast.Expr) and isinstance(n.ast.value, ast.Call) and call_name(n.ast.value) == 'append'
+                     and [unparse(a) for a in n.ast.value.args] == ['circ_record'] and unparse(n.ast.value.func.value).startswith('circ_records')
+                     for n in nodes)
         tot = sum(1 for n in nodes if is_inc(n, 'tally.skipped.total'))
         rs = sum(1 for n in nodes if any(is_inc(n, f'tally.skipped.{r}') for r in REASONS))
         if stored and (tot or rs):
@@ -105,7 +107,8 @@ def run(chk, repo):
            path=bad.describe(c.module.relpath) if bad else None, fn=c.qual)
     hs = [h for t in walk_no_nested(loop) if isinstance(t, ast.Try) for h in t.handlers]
     for en in ('ExonNotFoundError', 'IntronNotFoundError'):
-        hh = [h for h in hs if h.type is not None and unparse(h.type).endswith(en)]
+        hh = [h for h in hs if h.type is not None and (unparse(h.type).endswith(en) or (isinstance(h.type, ast.Tuple) and any(unparse(e).endswith(en) for e in h.type.elts)
+                                                                                        and all(unparse(e).endswith(('ExonNotFoundError', 'IntronNotFoundError')) for e in h.type.elts)))]
         ok = len(hh) == 1 and isinstance(hh[0].body[-1], ast.Continue) and any(norm_stmt(s) == 'tally.skipped.invalid_record += 1' for s in hh[0].body)
         chk.ob('C17.b', f"{en} -> skip and count invalid_record", repo.loc(c, hh[0]) if hh else c.where, ok, f"{en} is not skipped-and-counted", key=CLI + f'::{en}', fn=c.qual)
     # isoform lookup: anno.transcripts[<record-derived>] must be membership-tested by the CLI (or converted)
